@@ -933,13 +933,16 @@ fn match_ty<I: Interner>(
             .db
             .fn_def_datum(*fn_def_id)
             .to_program_clauses(builder, environment),
-        TyKind::Str
-        | TyKind::Never
-        | TyKind::Scalar(_)
-        | TyKind::Foreign(_)
-        | TyKind::Tuple(0, _) => {
+        TyKind::Foreign(_) => {
             // These have no substitutions, so they are trivially WF
             builder.push_fact(WellFormed::Ty(ty.clone()));
+        }
+        TyKind::Str | TyKind::Never | TyKind::Scalar(_) | TyKind::Tuple(0, _) => {
+            // These have no substitutions, so they are trivially WF
+            builder.push_fact(WellFormed::Ty(ty.clone()));
+            // Orphan rules: these mention no type parameter, so they are
+            // fully visible (like a struct without parameters)
+            builder.push_fact(DomainGoal::IsFullyVisible(ty.clone()));
         }
         TyKind::Raw(mutbl, _) => {
             // forall<T> WF(*const T) :- WF(T);
@@ -1049,7 +1052,7 @@ fn match_ty<I: Interner>(
                 let tuple_ty = TyKind::Tuple(*len, substs.clone()).intern(interner);
                 let sized = builder.db.well_known_trait_id(WellKnownTrait::Sized);
                 builder.push_clause(
-                    WellFormed::Ty(tuple_ty),
+                    WellFormed::Ty(tuple_ty.clone()),
                     substs.as_slice(interner)[..*len - 1]
                         .iter()
                         .filter_map(|s| {
@@ -1066,6 +1069,15 @@ fn match_ty<I: Interner>(
                                 subst.assert_ty_ref(interner).clone(),
                             ))
                         })),
+                );
+
+                // Orphan rules: like a struct, a tuple is fully visible if its elements are:
+                // IsFullyVisible((T0, ..., Tn)) :- IsFullyVisible(T0), ..., IsFullyVisible(Tn)
+                builder.push_clause(
+                    DomainGoal::IsFullyVisible(tuple_ty),
+                    substs
+                        .type_parameters(interner)
+                        .map(DomainGoal::IsFullyVisible),
                 );
             });
         }
